@@ -16,6 +16,7 @@ package main
 // A hang is caught by the parent's per-case budget.
 
 import (
+	"encoding/json"
 	"fmt"
 	"os"
 	"runtime"
@@ -27,6 +28,65 @@ import (
 func init() {
 	extraKinds["cost"] = runCost
 	extraKinds["scale"] = runScale
+	extraKinds["docscale"] = runDocScale
+}
+
+// nestDoc builds [[[ ... 1 ... ]]] with d levels, iteratively.
+func nestDoc(d int) any {
+	var v any = json.Number("1")
+	for i := 0; i < d; i++ {
+		v = []any{v}
+	}
+	return v
+}
+
+// runDocScale: a scalar-valued expression on documents nested 64..8192 levels
+// (at most ~quadratic growth, the specified outcome), and once at VERIF_DEEP.
+func runDocScale(m map[string]any) Result {
+	expr, err := cpsToString(m["expr"])
+	if err != nil {
+		return Result{Class: "harness", Detail: err.Error()}
+	}
+	adm, err := decodeAdm(m["adm"])
+	if err != nil {
+		return Result{Class: "harness", Detail: err.Error()}
+	}
+	run := func(d int) (call, time.Duration) {
+		doc := nestDoc(d)
+		t0 := time.Now()
+		c := doSearch(expr, doc)
+		return c, time.Since(t0)
+	}
+	var prev time.Duration
+	for n := 64; n <= 8192; n *= 2 {
+		c, dur := run(n)
+		if c.panicked {
+			r := fail("panic", c.out, fmt.Sprintf("document depth %d: %s", n, firstLines(c.stack, 12)))
+			r.Site = c.site
+			return r
+		}
+		if !admits(adm, c.out) {
+			return fail("mismatch", c.out, fmt.Sprintf("document depth %d: outcome outside the admissible set", n))
+		}
+		if dur > 2*time.Second || (prev > 2*time.Millisecond && dur > 8*prev) {
+			return fail("cost", c.out, fmt.Sprintf("document depth %d took %v (depth %d: %v)", n, dur, n/2, prev))
+		}
+		prev = dur
+	}
+	deep := 100000
+	if v, err := strconv.Atoi(os.Getenv("VERIF_DEEP")); err == nil && v > 0 {
+		deep = v
+	}
+	c, dur := run(deep)
+	if c.panicked {
+		r := fail("panic", c.out, fmt.Sprintf("document depth %d: %s", deep, firstLines(c.stack, 12)))
+		r.Site = c.site
+		return r
+	}
+	if !admits(adm, c.out) {
+		return fail("mismatch", c.out, fmt.Sprintf("document depth %d: outcome outside the admissible set", deep))
+	}
+	return Result{OK: true, Pinned: pinned(adm), GotS: fmt.Sprintf("depth %d in %v", deep, dur)}
 }
 
 type measure struct {
